@@ -9,10 +9,11 @@ import Driver.MaterialLaws
 import Driver.Broadcast
 import Driver.Meanstress
 import Driver.Vmap
+import Driver.Notch
 open PylifeVerif.Driver
 
 /-- All handlers; the first that recognises the op answers. -/
-def handlers : List (List String → Option String) := [handleRainflow, handleHCM, handleFkmNonlinear, handleWoehler, handleCollective, handleEquistress, handleMiner, handleMaterialLaws, handleBroadcast, handleMeanstress, handleVmap]
+def handlers : List (List String → Option String) := [handleRainflow, handleHCM, handleFkmNonlinear, handleWoehler, handleCollective, handleEquistress, handleMiner, handleMaterialLaws, handleBroadcast, handleMeanstress, handleVmap, handleNotch]
 
 def answer (line : String) : String :=
   let toks := (line.splitOn " ").filter (· ≠ "")
